@@ -1,0 +1,4 @@
+// Package verifclock is a seam for verification builds (build tag "verif"): a deterministic simulator
+// rewrites the application's time.Now() calls to verifclock.Now() in a build overlay, so that every simulated
+// node can be given its own wall clock. Without the tag the package is empty and nothing refers to it.
+package verifclock
